@@ -293,7 +293,11 @@ class Port_Matcher
 
         bool hard_match(int i, const char *msg)
         {
-            if(strncmp(msg, fixed[i].c_str(), fixed[i].length()))
+            const std::string &name = fixed[i];
+            if(strncmp(msg, name.c_str(), name.length()))
+                return false;
+            //a name which is no subtree ("name/") must be the whole path
+            if(!name.empty() && name.back() != '/' && msg[name.length()])
                 return false;
             if(arg_spec[i])
                 return rtosc_match_args(arg_spec[i], msg);
